@@ -48,7 +48,7 @@ func c17Make(rng *rand.Rand, base string) (*c17Layout, error) {
 	os.RemoveAll(base)
 	root := filepath.Join(base, "root")
 	out := filepath.Join(base, "outside")
-	for _, d := range []string{root, out, filepath.Join(out, "odir"), filepath.Join(base, "root-evil"), filepath.Join(base, "rootx")} {
+	for _, d := range []string{root, out, filepath.Join(out, "odir"), filepath.Join(base, "root-evil"), filepath.Join(base, "rootx"), filepath.Join(base, "ROOT")} {
 		if err := os.MkdirAll(d, 0o755); err != nil {
 			return nil, err
 		}
@@ -79,6 +79,10 @@ func c17Make(rng *rand.Rand, base string) (*c17Layout, error) {
 	wOut("root-evil/index.html", "evilindex")
 	wOut("rootx/x.txt", "rootx")
 	wOut("top-secret.txt", "top")
+	// a sibling whose path differs from the root's in letter case only (a different directory on this file system)
+	wOut("ROOT/r.txt", "caseroot")
+	wOut("ROOT/a.txt", "casea")
+	wOut("ROOT/index.html", "caseindex")
 	l.outNames = []string{"onlyoutside-deep.txt", "top-secret.txt"}
 	wIn("a.txt")
 	wIn("sub/b.txt")
@@ -154,6 +158,22 @@ func c17Make(rng *rand.Rand, base string) (*c17Layout, error) {
 	if opt(40) {
 		link("../../outside/odir", "sub/odir", "nested link to outside dir")
 	}
+	if opt(60) {
+		link("../ROOT", "caselink", "link to the sibling that differs from the root in letter case only")
+	}
+	if opt(50) {
+		link("../ROOT/a.txt", "case_a.txt", "link to a file in the case-variant sibling")
+	}
+	// entries named like the compressed variant of a servable file, pointing outside
+	if opt(50) {
+		link("../outside/secret.txt", "a.txt.gz", "link named like a.txt's pre-compressed sibling, pointing outside")
+	}
+	if opt(30) {
+		link(abs("top-secret.txt"), "sub/b.txt.gz", "absolute link named like sub/b.txt's pre-compressed sibling")
+	}
+	if opt(30) {
+		link("../outside/secret.txt", "x.txt.br", "link named like x.txt's brotli sibling")
+	}
 	os.Symlink("root", filepath.Join(base, "rootlink"))
 	l.RootVia = []string{"root", "rootlink"}[rng.Intn(2)]
 	l.Prefix = []string{"", "/static", "/s/t", "/static/"}[rng.Intn(4)]
@@ -163,7 +183,7 @@ func c17Make(rng *rand.Rand, base string) (*c17Layout, error) {
 		l.Index = []string{"link_out.txt", "../outside/secret.txt", "a.txt", "dlink_out/secret.txt"}[rng.Intn(4)]
 	}
 	l.names = []string{"a.txt", "sub", "b.txt", "deep", "c.txt", "e.txt", "x.txt", "idx", "index.html", "link_in.txt", "link_out.txt", "link_out_abs.txt", "dlink_out", "dlink_in",
-		"chain1", "chain2", "up", "dangling", "loop", "evil", "odir", "secret.txt", "outside", "root", "root-evil", "rootx", "top-secret.txt", "onlyoutside-deep.txt", "rootlink", "..", ".", "", "%2e%2e", "..%2f", "%2e%2e%2f", "..\\", "%5c..", "%00", "a.txt%00", "...", "....//"}
+		"chain1", "chain2", "up", "dangling", "loop", "evil", "odir", "secret.txt", "outside", "root", "root-evil", "rootx", "top-secret.txt", "onlyoutside-deep.txt", "rootlink", "caselink", "case_a.txt", "r.txt", "ROOT", "a.txt.gz", "b.txt.gz", "..", ".", "", "%2e%2e", "..%2f", "%2e%2e%2f", "..\\", "%5c..", "%00", "a.txt%00", "...", "....//"}
 	return l, nil
 }
 
@@ -365,6 +385,13 @@ func checkC17(tier string) {
 					req := &http.Request{Method: method, URL: &url.URL{Path: p}, Header: http.Header{}, Proto: "HTTP/1.1", ProtoMajor: 1, ProtoMinor: 1}
 					if rangeHdr != "" {
 						req.Header.Set("Range", rangeHdr)
+					}
+					if pi%3 == 0 || canonical {
+						// content negotiation must not open a second, unchecked way to a file
+						req.Header.Set("Accept-Encoding", []string{"gzip", "gzip, deflate, br", "br;q=1.0, gzip;q=0.8, *;q=0.1"}[pi%3])
+						mu.Lock()
+						stats["requests_accepting_compressed_variants"]++
+						mu.Unlock()
 					}
 					rec := httptest.NewRecorder()
 					srv.ServeHTTP(rec, req)
